@@ -20,6 +20,8 @@ def to_float(token):
     Convert a number in any of the spellings that MCNP accepts (Fortran
     exponents included: ``1.5d0``, ``1.5+0``) to a float.
     """
+    if not isinstance(token, str):
+        return float(token)
     text = token.strip().lower().replace('d', 'e')
     match = re_fortran_float.match(text)
     if match:
